@@ -178,9 +178,16 @@ def id_kinds(ctx, crate, crs, tag):
                         if c.kind == "cmp" and dim.kind_of(b, c.a, e) == IDX and dim.kind_of(b, c.b, e) == END and c.op == "Ge":
                             if q.edge_dominates(b, c.bb, c.target(True), i):
                                 okd = True
+                    for c in q.conds(b, crs):
+                        # `match idx.checked_sub(first_additional) { Some(i) => additional[i], None => .. }`
+                        if c.kind == "discr" and c.src and c.src.get("k") == "call" and c.src["t"]["f"]["name"] == "checked_sub" and \
+                                len(c.src["t"]["args"]) == 2 and dim.kind_of(b, c.src["t"]["args"][0], e) == IDX and \
+                                dim.kind_of(b, c.src["t"]["args"][1], e) == END and c.target("Some") is not None and \
+                                q.edge_dominates(b, c.bb, c.target("Some"), i):
+                            okd = True
                     ctx.ob("id-kinds" + tag, b.key, "additional-only-if-IDX>=END", okd, where_call(b, i),
                            "the additional list is consulted only for ids at or beyond the first additional id")
-    ctx.floor("id-kinds" + tag, "kinded id computations in SnapshotProvider", n, 6)
+    ctx.floor("id-kinds" + tag, "kinded id computations in SnapshotProvider", n, 4)
 
 
 # ---------------------------------------------------------------------------------------------
